@@ -712,9 +712,11 @@ class PathExplosion(Exception):
 class RefPaths:
     """All paths through one function body; per path the ledger {variable: balance}."""
 
-    def __init__(self, src_lines, limit=50000):
+    def __init__(self, src_lines, limit=50000, ref=None, deref=None):
         self.src = src_lines
         self.limit = limit
+        self.REF = REF if ref is None else ref
+        self.DEREF = DEREF if deref is None else deref
         self.exits = []         # (kind, line, ledger, detail)
         self.steps = 0
         self.container_vars = set()
@@ -767,10 +769,10 @@ class RefPaths:
         led = dict(led)
         for c in _calls_in(st):
             f = _fname(c)
-            if f in REF and c.args:
-                a = _etext(c.args[0])
+            if f in self.REF and c.args:
+                a = _etext(c.args[0]) if self.REF is REF else '<calls>'
                 led[a] = led.get(a, 0) + 1
-            elif f in DEREF and c.args:
+            elif f in self.DEREF and c.args:
                 a = _etext(c.args[-1])
                 led[a] = led.get(a, 0) - 1
         # owned results:  x = OWNED(...)
@@ -920,3 +922,23 @@ def ref_functions(path):
             out.append(dict(cls=cls, name=name, exits=[], explosion=True, steps=rp.steps,
                             line=node.pos[1], container_vars=[]))
     return out
+
+
+def wrap_discipline(path):
+    """Every path through `wrap(...)` must call `.init(...)` exactly once (the Function
+    constructor that takes the library reference). -> list of (line, calls) offenders, found?"""
+    tree, text = cy_parse(path)
+    src = text.split('\n')
+    for cls, name, node in cy_functions(tree):
+        if name == 'wrap' and cls is None:
+            rp = RefPaths(src, ref={'init'}, deref=set())
+            exits = rp.run(node.body)
+            bad = []
+            for kind, line, led, detail in exits:
+                if kind == 'RaiseStatNode':
+                    continue
+                n = led.get('<calls>', 0)
+                if n != 1:
+                    bad.append((line, n))
+            return True, bad, len(exits)
+    return False, [], 0
